@@ -60,7 +60,7 @@ def main():
         return m.new_obj(None, tree=tree, label='Point:' + name)
 
     def pcoords(o):
-        return [o.tree[i].v for i in (1, 2, 3)]
+        return [FA.leaf_value(o.tree[i]) for i in (1, 2, 3)]
 
     def t_formula(fn, part):
         def task(sub):
@@ -164,7 +164,7 @@ def main():
 
     def index_of(alg, toy, o):
         """(valid, k): group index of the projective point held by object o"""
-        x, y, z = [o.tree[i].v for i in (1, 2, 3)]
+        x, y, z = [FA.leaf_value(o.tree[i]) for i in (1, 2, 3)]
         zi = alg.inv(z)
         ax, ay = alg.mul(x, zi), alg.mul(y, zi)
         on, k = toy.on_curve(ax, ay)
